@@ -10,6 +10,7 @@
 From Coq Require Import List ZArith String Bool Permutation Sorted.
 From Thunder Require Import Lib.Json Pagination.Model Pagination.ProofsSlice Pagination.ProofsSort
   Pagination.ProofsFilterImpl Pagination.ProofsWalk Pagination.ProofsPage Pagination.ProofsFilter Pagination.Base64
+  Pagination.ProofsExt
   Pagination.ProofsMain.
 Import ListNotations.
 Open Scope list_scope.
@@ -227,10 +228,50 @@ Theorem string_sort_values_compare_lowercased :
 Proof. exact node_less_str. Qed.
 Print Assumptions string_sort_values_compare_lowercased.
 
+Theorem unsigned_sort_values_compare_as_integers :
+  forall f desc x y zx zy,
+  lookup_def (SInt 0) f (n_sorts x) = SUint zx -> lookup_def (SInt 0) f (n_sorts y) = SUint zy ->
+  node_less f desc x y = if desc then Z.ltb zy zx else Z.ltb zx zy.
+Proof. exact node_less_uint. Qed.
+Print Assumptions unsigned_sort_values_compare_as_integers.
+
+(** float sort values are compared through their codes (an order embedding of the non-NaN floats) *)
+Theorem float_sort_values_compare_by_code :
+  forall f desc x y cx cy,
+  lookup_def (SInt 0) f (n_sorts x) = SFloat cx -> lookup_def (SInt 0) f (n_sorts y) = SFloat cy ->
+  node_less f desc x y = if desc then Z.ltb cy cx else Z.ltb cx cy.
+Proof. exact node_less_float. Qed.
+Print Assumptions float_sort_values_compare_by_code.
+
+(** For any carrier and any strict weak order on it (floats without NaN with <, or whatever a sort field
+    returns): the stable insertion sort is a permutation, sorted, stable, and the only such list. *)
+Theorem stable_sort_for_any_strict_weak_order :
+  forall (A : Type) (less : A -> A -> bool),
+  (forall x, less x x = false) ->
+  (forall x y z, less x y = true -> less y z = true -> less x z = true) ->
+  (forall x y z, less x z = true -> less x y = true \/ less y z = true) ->
+  forall l,
+  Permutation (stable_sort less l) l /\
+  Sorted (fun x y => less y x = false) (stable_sort less l) /\
+  (forall z, filter (eqv less z) (stable_sort less l) = filter (eqv less z) l) /\
+  (forall l', Sorted (fun x y => less y x = false) l' ->
+              (forall z, filter (eqv less z) l' = filter (eqv less z) l) -> l' = stable_sort less l).
+Proof.
+  exact (fun A less Hi Ht Hn l =>
+           conj (stable_sort_perm less l)
+             (conj (stable_sort_sorted less Hi Ht l)
+                (conj (fun z => stable_sort_stable less Hn z l)
+                      (fun l' Hs Hf => stable_sort_unique less Hi Ht Hn l l' Hs Hf)))).
+Qed.
+Print Assumptions stable_sort_for_any_strict_weak_order.
+
 (** * The text filter *)
 
 (** An element passes iff there is no (or an empty) filter text, or some registered filter field that is
-    selected by filterTextFields (all of them when the argument is absent) matches. *)
+    selected by filterTextFields (all of them when the argument is absent) matches - [match_fn] on
+    [search_tokens]: DefaultFilterFunc on the default tokens without filterType, the FilterFunc registered
+    under that name with one (user code: any pair of functions in [cfg_customs]), nothing for an
+    unregistered name (the three theorems after this one). *)
 Theorem element_passes_filter_iff :
   forall cfg l a n,
   In n (apply_text_filter cfg l a) <->
@@ -238,13 +279,31 @@ Theorem element_passes_filter_iff :
   (a_ftext a = None \/ a_ftext a = Some EmptyString \/
    exists t f, a_ftext a = Some t /\
      In f (cfg_ff cfg) /\ (forall fs, a_ffields a = Some fs -> In (ff_name f) fs) /\
-     default_match (lookup_def EmptyString (ff_attr f) (n_texts n)) (tokens t) = true).
+     match_fn cfg a (lookup_def EmptyString (ff_attr f) (n_texts n)) (search_tokens cfg a t) = true).
 Proof.
   exact (fun cfg l a n =>
            iff_trans (apply_text_filter_spec cfg l a n)
                      (and_iff_compat_l (In n l) (node_filter_spec cfg a n))).
 Qed.
 Print Assumptions element_passes_filter_iff.
+
+Theorem without_filter_type_default_tokeniser_and_match :
+  forall cfg a, a_ftype a = None -> match_fn cfg a = default_match /\ search_tokens cfg a = tokens.
+Proof. exact match_fn_default. Qed.
+Print Assumptions without_filter_type_default_tokeniser_and_match.
+
+Theorem registered_filter_type_uses_the_custom_functions :
+  forall cfg a ft tk m,
+  a_ftype a = Some ft -> lookup_custom ft (cfg_customs cfg) = Some (tk, m) ->
+  match_fn cfg a = m /\ search_tokens cfg a = tk.
+Proof. exact match_fn_custom. Qed.
+Print Assumptions registered_filter_type_uses_the_custom_functions.
+
+Theorem unregistered_filter_type_matches_nothing :
+  forall cfg a ft text toks,
+  a_ftype a = Some ft -> lookup_custom ft (cfg_customs cfg) = None -> match_fn cfg a text toks = false.
+Proof. exact match_fn_unregistered. Qed.
+Print Assumptions unregistered_filter_type_matches_nothing.
 
 (** applyTextFilter as written (three runners - plain, expensive, batched - filling three keep-arrays
     that are or-ed) keeps exactly the elements for which some selected field matches ... *)
@@ -256,9 +315,9 @@ Print Assumptions filter_runners_agree.
 (** ... so how the filter fields are implemented (plain, expensive, batch, batch-with-fallback, and
     whichever way the fallback switch points) does not change what passes. *)
 Theorem filter_field_implementation_is_irrelevant :
-  forall ffs ffs' sf sf' ub ub' l a,
+  forall ffs ffs' sf sf' ub ub' cu l a,
   map (fun f => (ff_name f, ff_attr f)) ffs = map (fun f => (ff_name f, ff_attr f)) ffs' ->
-  apply_text_filter (mk_cfg ffs sf ub) l a = apply_text_filter (mk_cfg ffs' sf' ub') l a.
+  apply_text_filter (mk_cfg ffs sf ub cu) l a = apply_text_filter (mk_cfg ffs' sf' ub' cu) l a.
 Proof. exact filter_impl_irrelevant. Qed.
 Print Assumptions filter_field_implementation_is_irrelevant.
 
@@ -278,6 +337,71 @@ Theorem tokens_of_words_and_phrases :
   forall items, forallb item_ok items = true -> tokens (render_sep items) = map content items.
 Proof. exact tokens_render_sep. Qed.
 Print Assumptions tokens_of_words_and_phrases.
+
+(** on ASCII texts [lower] is the bytewise A-Z -> a-z map (beyond ASCII the model lower-cases the
+    Latin-1 supplement; texts with code points from U+0100 are outside the model: [text_in_model]) *)
+Theorem lower_on_ascii_is_bytewise :
+  forall s, all_ascii s = true -> lower s = map_ascii lower_ascii s.
+Proof. exact lower_ascii_text. Qed.
+Print Assumptions lower_on_ascii_is_bytewise.
+
+(** * Externally managed connections and ManualPaginationWithFallback *)
+
+(** With PostProcessOptions.SetPageInfo thunder treats the list the resolver returned exactly like a
+    thunder-managed one (unsorted; text-filtered iff ApplyTextFilter): every per-page theorem above
+    applies through this equation. *)
+Theorem externally_managed_with_set_page_info_is_thunder_managed :
+  forall enc cfg l x a, ei_set_page_info x = true ->
+  get_connection_ext enc cfg l x a = get_connection enc cfg l (ext_args x a).
+Proof. exact ext_set_page_info. Qed.
+Print Assumptions externally_managed_with_set_page_info_is_thunder_managed.
+
+(** Without it the resolver's PaginationInfo is the source of truth for totalCount, hasNextPage,
+    hasPrevPage and pages; the page is everything the resolver returned (filtered iff ApplyTextFilter);
+    start/end cursors are those of the first and last edge. *)
+Theorem externally_managed_page_info_is_the_resolvers :
+  forall enc cfg l x a t,
+  l <> [] -> ei_set_page_info x = false -> ei_total x = Some t ->
+  exists c, get_connection_ext enc cfg l x a = inl c /\
+    c_total c = t /\ c_next c = ei_next x /\ c_prev c = ei_prev x /\ c_pages c = ei_pages x /\
+    c_edges c = nodes_to_edges enc (if ei_apply_filter x then apply_text_filter cfg l a else l) /\
+    c_start c = match c_edges c with [] => EmptyString | e :: _ => e_cursor e end /\
+    c_end c = match c_edges c with [] => EmptyString | e :: _ => e_cursor (last (c_edges c) e) end.
+Proof. exact ext_info_from_resolver. Qed.
+Print Assumptions externally_managed_page_info_is_the_resolvers.
+
+Theorem externally_managed_without_total_count_func_is_rejected :
+  forall enc cfg l x a,
+  l <> [] -> ei_set_page_info x = false -> ei_total x = None ->
+  get_connection_ext enc cfg l x a = inr ErrNoTotalFunc.
+Proof. exact ext_missing_total_func. Qed.
+Print Assumptions externally_managed_without_total_count_func_is_rejected.
+
+(** what the code does with an empty page: the empty connection, the resolver's info is not consulted *)
+Theorem externally_managed_empty_page_drops_resolver_info :
+  forall enc cfg x a, get_connection_ext enc cfg [] x a = inl empty_conn.
+Proof. exact ext_empty_page. Qed.
+Print Assumptions externally_managed_empty_page_drops_resolver_info.
+
+(** ManualPaginationWithFallback (as repaired by patches/C11-fix-2.patch): the switch selects a
+    thunder-managed connection with the field's full filter configuration, or the manual one. *)
+Theorem manual_pagination_with_fallback_dispatch :
+  forall enc cfg l x a,
+  get_connection_dual enc true cfg l x a = get_connection enc cfg l a /\
+  get_connection_dual enc false cfg l x a = get_connection_ext enc cfg l x a.
+Proof. exact (fun enc cfg l x a => conj (dual_fallback enc cfg l x a) (dual_manual enc cfg l x a)). Qed.
+Print Assumptions manual_pagination_with_fallback_dispatch.
+
+(** the code as found built the fallback field without the FilterFunc options: with filterType "exact"
+    registered on the field, the element "can" passes the filter but totalCount is 0 *)
+Theorem fallback_without_custom_filters_refuted :
+  exists cfg l x a c,
+    NoDup (map n_key l) /\ sort_ok cfg a /\ args_ok a /\
+    get_connection_dual_orig base64 true cfg l x a = inl c /\
+    c_total c <> total_count cfg l a /\
+    get_connection_dual base64 true cfg l x a <> inl c.
+Proof. exact f25_refutes. Qed.
+Print Assumptions fallback_without_custom_filters_refuted.
 
 (** * The cursor encoding of the code *)
 
@@ -301,14 +425,14 @@ Print Assumptions walk_forward_partition_base64.
 
 Definition ex_cfg : config :=
   mk_cfg [mk_ff "t0_batch" "t0" IBatch; mk_ff "t0_fb" "t0" IFallback; mk_ff "t1_exp" "t1" IExpensive]%string
-         ["n0"%string; "s0"%string] false.
+         ["n0"%string; "s0"%string] false c11_customs.
 Definition ex_node (k t : string) (n : Z) (s : string) : node :=
   mk_node k (JStr k) [("t0"%string, t)] [("n0"%string, SInt n); ("s0"%string, SStr s)].
 Definition ex_list : list node :=
   [ex_node "5" "can" 3 "b"; ex_node "2" "Man" 1 "B"; ex_node "9" "cannot" 2 "a";
    ex_node "4" "zed" 2 "C"; ex_node "7" "so can" 1 "c"; ex_node "1" "AN" 0 ""]%string.
 Definition ex_args : pargs :=
-  mk_args None None None None (Some "an ""so can"""%string) None (Some "n0"%string) true.
+  mk_args None None None None (Some "an ""so can"""%string) None (Some "n0"%string) true None.
 
 Example ex_hypotheses :
   NoDup (map n_key ex_list) /\ sort_ok ex_cfg ex_args /\
@@ -339,9 +463,32 @@ Proof. vm_compute. split; reflexivity. Qed.
 Example ex_after_before :
   match get_connection base64 ex_cfg ex_list
           (mk_args None None (Some (base64 "5")) (Some (base64 "1")) (Some "an ""so can"""%string)
-                   None (Some "n0"%string) true) with
+                   None (Some "n0"%string) true None) with
   | inl c => (map (fun e => n_key (e_node e)) (c_edges c), c_next c, c_prev c)
              = (["9"; "2"; "7"]%string, false, false)
+  | inr _ => False
+  end.
+Proof. vm_compute. reflexivity. Qed.
+
+(** a custom FilterFunc ("prefix": comma-separated, case-sensitive prefixes), an unsigned sort value above
+    2^63 and float sort values including -0 = +0 *)
+Example ex_custom_filter_uint_float :
+  let l := [mk_node "1" JNull [("t0", "can")] [("u0", SUint 3); ("f0", SFloat 4602678819172646912)];
+            mk_node "2" JNull [("t0", "Man")] [("u0", SUint 18446744073709551615); ("f0", SFloat (-4609434218613702656))];
+            mk_node "3" JNull [("t0", "cannot")] [("u0", SUint 2); ("f0", SFloat 0)];
+            mk_node "4" JNull [("t0", "zz")] [("u0", SUint 2); ("f0", SFloat 0)]]%string%Z in
+  let cfg := mk_cfg [mk_ff "t0_plain" "t0" IPlain]%string ["u0"; "f0"]%string false c11_customs in
+  map n_key (base_list cfg l (mk_args None None None None (Some "ca,M") None (Some "u0") true (Some "prefix")))%string
+    = ["2"; "1"; "3"]%string /\
+  map n_key (base_list cfg l (mk_args None None None None None None (Some "f0") false None))%string
+    = ["2"; "3"; "4"; "1"]%string.
+Proof. vm_compute. split; reflexivity. Qed.
+
+(** an externally managed page: the resolver's info is reported, the page is what it returned *)
+Example ex_externally_managed :
+  match get_connection_ext base64 ex_cfg ex_list (mk_ext (Some 77%Z) true false [] false false)
+          (mk_args (Some 1%Z) None None None None None None false None) with
+  | inl c => (c_total c, c_next c, c_prev c, List.length (c_edges c)) = (77%Z, true, false, 6)
   | inr _ => False
   end.
 Proof. vm_compute. reflexivity. Qed.
